@@ -271,6 +271,43 @@ pub fn run(cfg: &Cfg) {
             }
         }
     }
+    // ---- "returns exactly the content that was checked", on content built in memory that its own wire
+    //      form does not give back: a layout whose key table files a key under another id (the public
+    //      `keys` member takes it; a reader drops the entry), a link whose free-form byproducts use a member
+    //      name the reader gives a meaning to. What is verified is the block as it is; what comes back is it.
+    {
+        use in_toto::crypto::KeyId;
+        use std::str::FromStr;
+        let k = ed[0];
+        let other = ed[1];
+        let mut odd: Vec<MetadataWrapper> = vec![];
+        let mut l = crate::meta::gen_layout(&mut r, &pool);
+        l.keys.insert(KeyId::from_str(&"ab".repeat(32)).unwrap(), other.public().clone());
+        odd.push(MetadataWrapper::Layout(l));
+        let mut l2 = crate::meta::gen_layout(&mut r, &pool);
+        l2.keys.insert(k.public().key_id().clone(), other.public().clone());
+        odd.push(MetadataWrapper::Layout(l2));
+        for (name, value) in [("return-value", "not a number"), ("stdout-x", "free"), ("", "empty name")] {
+            let mut link = gen_link(&mut r, Some("odd"));
+            link.byproducts = in_toto::models::byproducts::ByProducts::new().set_other_field(name.to_string(), value.to_string());
+            odd.push(MetadataWrapper::Link(link));
+        }
+        for meta in odd {
+            let mb = match Metablock::new(meta.clone(), &[&k.key]) {
+                Ok(m) => m,
+                Err(_) => continue,
+            };
+            let replay = format!("in-memory block {}", serde_json::to_string(&mb).unwrap_or_default());
+            let (mb2, key) = (mb.clone(), k.public().clone());
+            let res = guarded(move || mb2.verify(1, [&key]));
+            sink.stat(&format!("in-memory/{}", match &res { Err(()) => "panic", Ok(Ok(_)) => "ok", Ok(Err(_)) => "ERR" }));
+            match res {
+                Err(()) => sink.oracle(false, "verify panicked", &replay),
+                Ok(Err(_)) => sink.oracle(false, "verify failed although the one authorized key signed the block validly (threshold 1)", &replay),
+                Ok(Ok(m)) => sink.oracle(m == meta, "verify returned other content than the block's", &replay),
+            }
+        }
+    }
     // ---- authorized keys as a consumer obtains them: read from key descriptions (a layout's key table,
     //      a key file). One key described twice - once truthfully, once with another `keyid` member,
     //      other hash-algorithm list or other member order - is still one key: its signature, listed
